@@ -209,7 +209,7 @@ def run(ctx):
             and (r['shape']['ang'] == 0 or r['shape']['kind'] in ('circle', 'cann')) and r['s'] in (1, 2) and not r['nonfinite']][:5]
     bad = []
     for k, r in enumerate(good):
-        r2 = json.loads(json.dumps(r)); r2['id'] = 10**9 + k
+        r2 = core.jcopy(r); r2['id'] = 10**9 + k
         if k % 2:
             r2['sum_k'] += 9 * S
         else:
